@@ -29,6 +29,11 @@ def cases(tier, seed):
             continue
         out.append({'kind': 'solve', 'd': d, 'nc': nc, 'path': path, 'nq': nq, 'menu': menu, 'tier': tier, 'cost': (d + nc) ** 2 * nq})
     out.append({'kind': 'illposed', 'cost': 5})
+    # the quasi-neutrality subclass overrides solveEquation (m = 0 convention): same oracle, modes distributed over 1-3 ranks
+    for d, path, nq, (adiab, chi) in itertools.product((2, 3), ('general', 'cu'), (4, 5), ((True, 0), (True, 1), (False, None))):
+        if path == 'cu' and d != 3:
+            continue
+        out.append({'kind': 'qnsolver', 'd': d, 'nc': 5, 'path': path, 'nq': nq, 'adiabatic': adiab, 'chi': chi, 'cost': 200})
     return out
 
 
@@ -81,7 +86,7 @@ def _solve_case(case):
 
     def V(sig, what):
         viols.setdefault(sig, {'sig': sig, 'what': what, 'detail': {}})
-    c = Constants()
+    c = ops.generic_constants(Constants())
     d, nc, nq = case['d'], case['nc'], case['nq']
     breaks = np.linspace(0.1, 14.5, nc + 1) if case['menu'] == 'qn' else (np.linspace(1.0, 4.0, nc + 1) if nc != 4 else np.linspace(0.7, 2.3, nc + 1))
     rs = BSplines(make_knots(breaks, d, False), d, False, case['path'] == 'cu')
@@ -217,6 +222,96 @@ def _solve_case(case):
     return viols, evals, skipped, worst
 
 
+def _qnsolver(case):
+    import numpy as np
+    from pgv import sim, ops, refspline, simmpi
+    MPI = sim.setup()
+    from pygyro.splines.splines import make_knots, BSplines
+    from pygyro.model.layout import getLayoutHandler
+    from pygyro.model.grid import Grid
+    from pygyro.poisson.poisson_solver import QuasiNeutralitySolver
+    from pygyro.initialisation.constants import Constants
+    from pygyro.initialisation import initialiser_funcs as init
+    viols = {}
+
+    def V(sig, what):
+        viols.setdefault(sig, {'sig': sig, 'what': what, 'detail': {}})
+    c = ops.generic_constants(Constants())
+    d, nc, nq = case['d'], case['nc'], case['nq']
+    adiab, chi = case['adiabatic'], case['chi']
+    breaks = np.linspace(c.rMin, c.rMax, nc + 1)
+    rs = BSplines(make_knots(breaks, d, False), d, False, case['path'] == 'cu')
+    Sg = refspline.RefSpace(BSplines(make_knots(breaks, d, False), d, False, False))
+    rpts = np.asarray(rs.greville, dtype=float)
+    nr, nz = len(rpts), 2
+    qdeg = 7
+    n0 = lambda r: init.n0(r, c.CN0, c.kN0, c.deltaRN0, c.rp)                      # noqa
+    Te = lambda r: init.Te(r, c.CTe, c.kTe, c.deltaRTe, c.rp)                      # noqa
+    g = lambda r: init.n0deriv_normalised(r, c.kN0, c.rp, c.deltaRN0)              # noqa
+    M0 = dict(A=lambda r: -1.0, B=lambda r: -(1 / r + g(r)), C=lambda r: 0.0, D=lambda r: -1 / r ** 2, E=lambda r: 1 / n0(r))
+    MC = dict(M0, C=(lambda r: 1 / Te(r)) if adiab else (lambda r: 0.0))
+    K0n, KD, MM = _dense_reference(Sg, breaks, qdeg, M0)
+    K0c, _, _ = _dense_reference(Sg, breaks, qdeg, MC)
+    mv = np.fft.fftfreq(nq, 1 / nq)
+    rowsR = np.array([Sg.row(x, 0) for x in rpts])
+    tag = 'QuasiNeutralitySolver degree=%d path=%s ntheta=%d adiabatic=%s chi=%r' % (d, case['path'], nq, adiab, chi)
+    evals = 0
+    worst = 0.0
+    for p in (1, 2, 3):
+        eta = [rpts, np.linspace(0, 2 * np.pi, nq, endpoint=False), np.linspace(0, 1, nz)]
+        rhs = []
+        for k in range(nr * nq):
+            R = np.zeros((nq, nz, nr), dtype=complex)
+            R[(k // nr) % nq, k % nz, k % nr] = 1.0 - 0.5j
+            rhs.append(R)
+        rhs.append(np.fromfunction(lambda a, b, cc: np.cos(1.0 + a + 2 * cc) + 1j * np.sin(0.3 + b + cc * a), (nq, nz, nr)))
+
+        def fn(r):
+            comm = MPI.COMM_WORLD
+            h = getLayoutHandler(comm, {'v_parallel_2d': [0, 2, 1], 'mode_solve': [1, 2, 0]}, [p], eta)
+            phi = Grid(eta, [None] * 3, h, 'mode_solve', comm, dtype=np.complex128)
+            rho = Grid(eta, [None] * 3, h, 'mode_solve', comm, dtype=np.complex128)
+            kw = {'chi': chi} if adiab else {}
+            qn = QuasiNeutralitySolver(eta, qdeg, rs, c, adiabaticElectrons=adiab, **kw)
+            l = rho.getLayout('mode_solve')
+            sl = tuple(slice(int(x), int(y)) for x, y in zip(l.starts, l.ends))
+            res = []
+            for R in rhs:
+                rho.getAllData()[:] = R[sl]
+                phi.getAllData()[:] = np.nan
+                qn.solveEquation(phi, rho)
+                res.append(phi.getAllData().copy())
+            return sl, res
+        try:
+            out = [fn(0)] if p == 1 else simmpi.World(p).run(fn)
+        except Exception as e:  # noqa
+            V('qnsolver-exception:' + type(e).__name__, '%s p=%d: %s: %s' % (tag, p, type(e).__name__, e))
+            continue
+        for k, R in enumerate(rhs):
+            got = np.full((nq, nz, nr), np.nan, dtype=complex)
+            for sl, res in out:
+                got[sl] = res[k]
+            for Im, m in enumerate(mv):
+                lo = 0 if m == 0 else 1
+                hi = Sg.nc - 1
+                K = ((K0n if (m == 0 and adiab and chi == 1) else K0c) - m * m * KD)[lo:hi, lo:hi]
+                cond = np.linalg.cond(K)
+                for j in range(nz):
+                    u = R[Im, j, :]
+                    evals += 1
+                    cr = Sg.coeffs(u.real) + 1j * Sg.coeffs(u.imag)
+                    cc = np.zeros(Sg.nc, dtype=complex)
+                    cc[lo:hi] = np.linalg.solve(K, (MM @ cr)[lo:hi])
+                    want = rowsR @ cc
+                    tol = 1e-10 * max(1.0, cond * 1e-3) * max(1e-30, np.abs(want).max() + np.abs(u).max() * 1e-3)
+                    err = np.abs(got[Im, j, :] - want).max()
+                    if np.abs(want).max() > 0:
+                        worst = max(worst, err / tol)
+                    if not err <= tol:
+                        V('qnsolver-differs-from-galerkin', '%s modes over %d rank(s), mode index %d (m=%g) rhs %d: max error %.3g (|want| %.3g)' % (tag, p, Im, m, k, err, np.abs(want).max()))
+    return viols, evals, 0, worst
+
+
 def _illposed():
     import numpy as np
     from pgv import sim
@@ -246,7 +341,9 @@ def _illposed():
 
 
 def run_case(case):
-    if case['kind'] == 'solve':
+    if case['kind'] == 'qnsolver':
+        viols, evals, skipped, worst = _qnsolver(case)
+    elif case['kind'] == 'solve':
         viols, evals, skipped, worst = _solve_case(case)
     else:
         viols, evals, skipped, worst = _illposed()
